@@ -27,3 +27,20 @@ Definition gomod_oracle (c : list gline * bytes * list (bytes * bytes) * list (b
   else if negb (beq (render f) text) then 4
   else if negb (list_eqb pair_eqb (declared_go_mod f) expected) then 5
   else if list_eqb pair_eqb impl (declared_go_mod f) then 0 else 6.
+
+(* Cargo.toml: the reference reading (denotation of the tree-sitter-toml tree, then the declared dependencies)
+   against the generator's list and the implementation's.  0 = the checked list is the declared list; 4 = the tree does
+   not denote a TOML document; 5 = the reference reading differs from what the generator rendered; 6 = property violated
+   outside every known class; 7 = deviation inside a known class (cargo_known, or a spelling outside plain_toml);
+   8 = not a Cargo manifest as far as the reading goes (cargo_shape_ok fails) and the lists differ *)
+From VL Require Import Spec.TomlDoc.
+Definition cargo_oracle (c : bytes * node * list (bytes * bytes) * list (bytes * bytes)) : N :=
+  let '(content, cst, impl, expected) := c in
+  match denote_toml content cst with
+  | None => 4
+  | Some d =>
+      let decl := declared_cargo d in
+      let known := cargo_known d || negb (plain_toml content cst) in
+      if negb (list_eqb pair_eqb decl expected) then 5
+      else if list_eqb pair_eqb impl decl then 0 else if known then 7 else if negb (cargo_shape_ok d) then 8 else 6
+  end.
